@@ -744,3 +744,62 @@ Proof.
     rewrite app_nil_r. reflexivity.
 Qed.
 
+
+(** ---- failure atomicity of XADD at the command level ---- *)
+Ltac break_match :=
+  match goal with
+  | |- context [match ?x with _ => _ end] =>
+      match type of x with
+      | _ => destruct x eqn:?
+      end
+  end.
+
+Theorem xadd_error_atomic d parts oracle :
+  is_error (fst (h_xadd d parts oracle)) = true -> snd (h_xadd d parts oracle) = d.
+Proof.
+  unfold h_xadd.
+  repeat (first [ progress cbn [fst snd is_error r_err r_wrongtype r_panic r_sid] | break_match ]);
+    try reflexivity; try discriminate; intros; try reflexivity; try discriminate.
+Qed.
+
+Theorem xdel_error_atomic d parts :
+  is_error (fst (h_xdel d parts)) = true -> snd (h_xdel d parts) = d.
+Proof.
+  unfold h_xdel.
+  repeat (first [ progress cbn [fst snd is_error r_err r_wrongtype r_int] | break_match ]);
+    try reflexivity; try discriminate; intros; try reflexivity; try discriminate.
+Qed.
+Theorem xtrim_error_atomic d parts :
+  is_error (fst (h_xtrim d parts)) = true -> snd (h_xtrim d parts) = d.
+Proof.
+  unfold h_xtrim.
+  repeat (first [ progress cbn [fst snd is_error r_err r_wrongtype r_int] | break_match ]);
+    try reflexivity; try discriminate; intros; try reflexivity; try discriminate.
+Qed.
+(** the read commands never change the database *)
+Theorem xreads_pure d parts :
+  snd (h_xrange d parts) = d /\ snd (h_xrevrange d parts) = d /\ snd (h_xlen d parts) = d /\ snd (h_xread d parts) = d.
+Proof.
+  repeat split.
+  - unfold h_xrange. repeat (first [ progress cbn [fst snd] | break_match ]); reflexivity.
+  - unfold h_xrevrange. repeat (first [ progress cbn [fst snd] | break_match ]); reflexivity.
+  - unfold h_xlen. repeat (first [ progress cbn [fst snd] | break_match ]); reflexivity.
+  - unfold h_xread. repeat (first [ progress cbn [fst snd] | break_match ]); reflexivity.
+Qed.
+
+(** ---- scripts of commands, for witnesses ---- *)
+Definition cmd (l : list String.string) : list frame := map (fun s => FBulk (bs s)) l.
+Fixpoint run_cmds (now : Z) (d : db) (cs : list (list frame)) : list frame * db :=
+  match cs with
+  | [] => ([], d)
+  | c :: r =>
+      match c with
+      | FBulk nm :: _ =>
+          match exec_streams now d (upper nm) c None with
+          | Some (f, d') => match run_cmds now d' r with (fs, d'') => (f :: fs, d'') end
+          | None => ([FError (bs "NOTSTREAMCMD")], d)
+          end
+      | _ => ([FError (bs "BADCMD")], d)
+      end
+  end.
+Definition bulk (s : String.string) : frame := FBulk (bs s).
